@@ -2,6 +2,7 @@ import Slu.Proto
 import Slu.Model.History
 import Slu.Model.Struct
 import Slu.Model.Mem
+import Slu.Model.Order
 import Slu.Drv.Lu
 -- HANDLER history => Slu.Drv.History.handle
 /-
@@ -401,6 +402,13 @@ def handleAll (c : Case) : Res := Id.run do
         | none => pure ()
       let permC := permCi.map Int.toNat
       let ipc := Slu.Drv.Lu.invPerm permC
+      if fact == "D" then
+        -- the tree handed back by a call that orders the columns itself is the column elimination tree of A*Pc
+        -- (it is independent of the row scaling and of SymmetricMode's heap_relax_snode, which relabels it in place and restores it)
+        let pat : Slu.Order.Pat := { m := n, n := n, colptr := colptr, rowind := rowind }
+        let ct := Slu.Order.coletree n n (Slu.Order.permView pat permC).col
+        if (sc.int "etree").toList ≠ ct.toList.map Int.ofNat then
+          return Res.propFalse s!"step {k} ({fact}): order: the elimination tree returned is not the column elimination tree of A*Pc: returned {(sc.int "etree").toList} expected {ct.toList}" tg
       if info ≠ 0 ∧ info ≤ n then
         -- the generator only produces nonsingular matrices: decide with the exact model
         let P0 : Params Q Rat := { m := n, n := n, col := fun j => denseCol F (ipc.getD j 0), u := u, order := fun _ => List.range n,
